@@ -564,10 +564,10 @@ contract(
 _NAME_POOL = [
     "a", "b", "a.alt", "a.sc", "f_i", "f_f_i", "f_i.alt", "a_b.sc", "uni0041", "uni0061", "u1F600", "a-cy", "ka-deva", "ka_ssa-deva",
     "alpha", "alpha.1", "alpha.1.1", "a.1", "A", "Aacute", "x" * 70, "y-" * 35, "_".join(["a-cy"] * 16), "e.fina.alt", "space", "b.a",
-    "noUni", "noUni.alt", "emoji", "emoji_a", "T_h", "é", "a b", "a/b",
+    "noUni", "noUni.alt", "emoji", "emoji_a", "T_h", "é", "a b", "a/b", "bmpmax", "supmin", "bmpmax_supmin", "bmpmax.alt",
 ]
 _UNI_POOL = {"a": 0x61, "b": 0x62, "A": 0x41, "Aacute": 0xC1, "a-cy": 0x430, "ka-deva": 0x915, "alpha": 0x3B1, "space": 0x20,
-             "emoji": 0x1F600, "uni0041": 0xE000, "f": 0x66, "i": 0x69, "T": 0x54, "h": 0x68, "e": 0x65, "é": 0xE9}
+             "emoji": 0x1F600, "bmpmax": 0xFFFF, "supmin": 0x10000, "uni0041": 0xE000, "f": 0x66, "i": 0x69, "T": 0x54, "h": 0x68, "e": 0x65, "é": 0xE9}
 _PS_POOL = ["alpha", "alpha", "alpha.1", "uni0041", "a", "", "A-b", "é", "x" * 64, "uni0915094D0937" + ".conjunct" * 6 + "x", "b", "a.alt", ".notdef", "gen1"]
 
 
@@ -585,6 +585,8 @@ def names_cases(rng, n):
         {"glyphs": ["a", "b"], "uni": {}, "ps": {"a": ".notdef", "b": "gen1"}, "extra": [".notdef", "gen1"], "front": True},
         {"glyphs": ["a", "uni0061"], "uni": {"a": 0x61}, "ps": None, "extra": ["uni0061.1"], "front": False},
         {"glyphs": [], "uni": {}, "ps": {}, "extra": ["x"], "front": True},
+        # the BMP boundary of the uniXXXX / uXXXXX rule
+        {"glyphs": ["bmpmax", "supmin", "bmpmax_supmin", "bmpmax_bmpmax", "supmin.alt"], "uni": {"bmpmax": 0xFFFF, "supmin": 0x10000}, "ps": None, "extra": [], "front": True},
         # ligatures / suffixes with and without code points, generated uniXXXX colliding with a literal uni name
         {"glyphs": ["f", "i", "f_i", "a", "a.alt", "f_i.alt", "noUni", "noUni.alt", "uni0061", "f_f_i"], "uni": {"f": 0x66, "i": 0x69, "a": 0x61}, "ps": None, "extra": [".notdef"], "front": True},
         {"glyphs": ["f", "i", "f_i", "a", "a.alt", "emoji", "emoji_a", "a_b.sc", "b"], "uni": {"f": 0x66, "i": 0x69, "a": 0x61, "emoji": 0x1F600}, "ps": {"f_i": "fi", "a.alt": "fi", "b": ""}, "extra": [], "front": True},
